@@ -36,7 +36,7 @@ pub fn prop() -> HistProp {
 
 /// populate, unmount cleanly, then - in a fresh session in which nothing else has happened - exactly one mutating
 /// operation of each kind, followed by handle drops; the status byte is judged at every call boundary
-fn first_mutation_scripts(cs: u32) -> Vec<(&'static str, Vec<Op>)> {
+pub fn first_mutation_scripts(cs: u32) -> Vec<(&'static str, Vec<Op>)> {
     let of = |p: &str, k: u8| Op::OpenFile { via: 0, path: p.into(), keep: k };
     let seek = |o: i64| Op::Seek { h: 0, whence: 0, off: o };
     vec![
@@ -67,7 +67,7 @@ fn first_mutation_scripts(cs: u32) -> Vec<(&'static str, Vec<Op>)> {
     ]
 }
 
-fn populate_ops(cs: u32) -> Vec<Op> {
+pub fn populate_ops(cs: u32) -> Vec<Op> {
     vec![
         Op::CreateDir { via: 0, path: "sub".into(), keep: 0 },
         Op::CreateDir { via: 0, path: "sub/inner".into(), keep: 0 },
